@@ -277,7 +277,7 @@ Theorem save_startxref_exact : forall xt d,
   match xt with
   | XTable => exists rest, SR.strip SR.KW_xref (SR.at_off (so_bytes (save xt d)) (blen (body_of d))) = Some rest
   | XStream => exists rest, SR.p_objhdr (SR.at_off (so_bytes (save xt d)) (blen (body_of d))) =
-                            Some (d_max_id d + 1, 0, rest)
+                            Some (d_max_id (raise_max_id d) + 1, 0, rest)
   end.
 Proof.
   intros xt d Hok. destruct (save_ok_shape xt d Hok) as [mid [Hb Hmid]].
@@ -286,9 +286,9 @@ Proof.
   - rewrite Hb, at_off_prefix. destruct xt.
     + subst mid. unfold write_xref. rewrite <- !app_assoc. rewrite KW_xref_eq, strip_app. eauto.
     + cbv zeta in Hmid. subst mid.
-      destruct (save_objhdr_accepted (d_max_id d + 1) 0
-                  (OStream (fst (fst (xstream_parts d (xmap_of d) (blen (body_of d) mod u32_mod))))
-                           (snd (fst (xstream_parts d (xmap_of d) (blen (body_of d) mod u32_mod)))))
+      destruct (save_objhdr_accepted (d_max_id (raise_max_id d) + 1) 0
+                  (OStream (fst (fst (xstream_parts (raise_max_id d) (xmap_of d) (blen (body_of d) mod u32_mod))))
+                           (snd (fst (xstream_parts (raise_max_id d) (xmap_of d) (blen (body_of d) mod u32_mod)))))
                   (startxref_bytes (blen (body_of d)))) as [r Hr].
       eexists. exact Hr.
 Qed.
